@@ -3,6 +3,9 @@
 Usage: tools/seed_report.py [extra-property-per-seed json]   -> seeded/RESULTS.json, seeded/RESULTS.md"""
 import json, os, subprocess, glob, re, sys
 ROOT = os.path.dirname(os.path.dirname(os.path.abspath(__file__)))
+# SEED_REPO: a scratch worktree of /repo to apply the patches to (the checks then read it through VERIF_REPO); default /repo itself
+REPO = os.environ.get("SEED_REPO", "/repo")
+ENV = dict(os.environ, VERIF_REPO=REPO) if REPO != "/repo" else dict(os.environ)
 EXTRA = {"C04-B": ["C20"], "C20-B": ["C09"], "C01-A": ["C03"], "C03-B": ["C01"], "C01-F": ["C02"], "C01-E": ["C04"], "C15-E": ["C01"], "C10-D": ["C09"], "C02-D": ["C03"], "C19-F": ["C02"]}
 ONLY = set(sys.argv[1:])          # optional: seed names to (re)run; the other rows are kept from the last report
 res = {}
@@ -14,20 +17,20 @@ for d in sorted(glob.glob(os.path.join(ROOT, "seeded", "C*-*"))):
         continue
     meta = json.load(open(os.path.join(d, "meta.json")))
     props = [meta["property"]] + EXTRA.get(name, [])
-    subprocess.run(["git", "-C", "/repo", "checkout", "--", "."], check=True)
-    ap = subprocess.run(["git", "-C", "/repo", "apply", os.path.join(d, "patch.diff")], capture_output=True, text=True)
+    subprocess.run(["git", "-C", REPO, "checkout", "--", "."], check=True)
+    ap = subprocess.run(["git", "-C", REPO, "apply", os.path.join(d, "patch.diff")], capture_output=True, text=True)
     if ap.returncode != 0:
         res[name] = {"outcome": "patch does not apply to the current tree", "props": props}
         continue
     out = {}
     try:
         for p in props:
-            r = subprocess.run([os.path.join(ROOT, "check"), p], capture_output=True, text=True, cwd=ROOT)
+            r = subprocess.run([os.path.join(ROOT, "check"), p], capture_output=True, text=True, cwd=ROOT, env=ENV)
             viol = re.findall(r"^VIOLATION property=\S+ replay=\S+ obligation=(\S+)", r.stdout, re.M)
             und = re.findall(r"^UNDECIDED property=\S+: (.*)$", r.stdout, re.M)
             out[p] = {"rc": r.returncode, "violations": viol, "undecided": [u[:160] for u in und[:2]]}
     finally:
-        subprocess.run(["git", "-C", "/repo", "checkout", "--", "."], check=True)
+        subprocess.run(["git", "-C", REPO, "checkout", "--", "."], check=True)
     caught = [p for p, v in out.items() if v["rc"] == 1]
     und = [p for p, v in out.items() if v["rc"] == 2]
     outcome = "CAUGHT" if caught else ("UNDECIDED (exit 2)" if und else "missed (check passes)")
@@ -56,4 +59,4 @@ for f in sorted(glob.glob(os.path.join(ROOT, "props", "C*.json"))):
     pid = os.path.basename(f)[:-5]
     if ONLY and pid not in touched:
         continue
-    subprocess.run([os.path.join(ROOT, "check"), pid], capture_output=True, text=True, cwd=ROOT)
+    subprocess.run([os.path.join(ROOT, "check"), pid], capture_output=True, text=True, cwd=ROOT, env=ENV)
